@@ -828,7 +828,10 @@ def check_line_readers(tier):
 
 TSV_TOKENS = ["<http://e/a>", "<http://e/p>", "_:b1", '"x"', '"a b"@en', '"5"^^<http://www.w3.org/2001/XMLSchema#integer>',
               '"v"^^xsd:date', '"w"^^<http://e/dt>', "<http://e/a", "abc", "12", "1.50", "[]", "", '"q', " <http://e/s> ",
-              '"a@b"', '"x"^^foo']
+              '"a@b"', '"x"^^foo',
+              # tokens on which the two texts of decide_literal_type differ (C06 repair B)
+              '"a"^^<http://e/a@b>', '"^^"', '"xsd:"^^<http://e/dt>', '"xsd:int"^^xsd:string',
+              '"5"^^<http://www.w3.org/2001/XMLSchema#integer>.', '"a"^^ <http://e/dt> ']
 
 
 def _tsv_real(line):
